@@ -38,7 +38,14 @@ ASSUMPTIONS = [
     "(rounding of a mean of <= 6 points is ~1e-15 relative)",
     "fix point: asserted when n >= ln(1e-13)/ln(rho) with rho the spectral radius of the Jacobi matrix of the harness's "
     "own free-point graph (Gauss-Seidel in any order is not slower, Stein-Rosenberg); residual and distance to the "
-    "harness's direct linear solve <= 1e-9 * size; with fewer iterations the case is only counted",
+    "harness's direct linear solve <= 1e-9 * size + 1e-12 * largest |coordinate|; with fewer iterations the case is only "
+    "counted",
+    "placement: the whole sketch plane / mesh is shifted by 0, 1e3, 1e5 or 2e6 cell sizes in a general direction "
+    "(largest |coordinate| about 8e7, spacing of doubles 1.5e-8, still below the library's TOL = 1e-7 used for vertex "
+    "merging and fix_points); static points remain bit-identical, the sweep tolerance 1e-11 * largest |coordinate| "
+    "scales with it",
+    "mesh histories: the n sweeps are spread over 1-3 smooth() calls of one smoother with mesh.backport() or nothing in "
+    "between; judged on mesh.vertices after the last call exactly as a single smooth(n)",
     "regular lattice: boundary (and fixed points) on an affine image of the integer lattice, so the integer lattice is "
     "the unique discrete-harmonic solution",
     "fixed-by-position uses the exact generated coordinates (the library matches within TOL = 1e-7; generated points "
@@ -118,6 +125,37 @@ _unit = st.floats(-1.0, 1.0)
 _iters = st.one_of(st.integers(1, 3), st.integers(1, 200), st.just(200))
 
 
+PLACE_RATIOS = [0.0, 0.0, 1e3, 1e5, 2e6]  # distance from the origin in cell sizes
+PLACE_DIRS = [[0.6, -0.5, 0.6245], [-0.48, 0.64, 0.6], [0.7071, 0.7071, 0.0], [0.2, 0.3, -0.9327]]
+
+
+@st.composite
+def _place(draw):
+    return {"ratio": draw(st.sampled_from(PLACE_RATIOS)), "dir": draw(st.integers(0, len(PLACE_DIRS) - 1))}
+
+
+def placement(case, cell_size: float) -> np.ndarray:
+    """where the whole sketch plane / mesh is put (georeferenced coordinates: large compared with a cell)"""
+    pl = case.get("place")
+    if not pl or not pl["ratio"]:
+        return np.zeros(3)
+    return pl["ratio"] * cell_size * np.array(PLACE_DIRS[pl["dir"]])
+
+
+@st.composite
+def _history(draw):
+    """how the n sweeps are spread over 1-3 smooth() calls on one smoother, and what happens in between"""
+    k = draw(st.sampled_from([0, 0, 1, 2]))
+    return {"cuts": [draw(st.integers(0, 200)) for _ in range(k)],
+            "ops": [draw(st.sampled_from(["backport", "backport", "noop"])) for _ in range(k)]}
+
+
+def split_iterations(n: int, history) -> List[int]:
+    cuts = sorted(c % (n + 1) for c in history["cuts"]) if history else []
+    bounds = [0, *cuts, n]
+    return [bounds[i + 1] - bounds[i] for i in range(len(bounds) - 1)]
+
+
 @st.composite
 def _tilt(draw):
     if draw(st.booleans()):
@@ -187,6 +225,7 @@ def grid_case(draw, regular: bool = False):
         "qperm": draw(st.one_of(st.none(), st.permutations(list(range(nx * ny))))),
         "pperm": draw(st.one_of(st.none(), st.permutations(list(range(npts))))),
         "tilt": draw(_tilt()), "drop": 0 if regular else draw(st.sampled_from([0, 0, 1, 2])),
+        "place": draw(_place()),
     }
     case.update(draw(_fixing(npts)))
     case["n"] = 200 if regular else draw(_iters)
@@ -212,6 +251,7 @@ def unstructured_case(draw):
         "qperm": draw(st.one_of(st.none(), st.permutations(list(range(len(quads)))))),
         "pperm": draw(st.one_of(st.none(), st.permutations(list(range(npts))))),
         "tilt": draw(_tilt()), "drop": draw(st.sampled_from([0, 0, 0, 1, 2])), "n": draw(_iters),
+        "place": draw(_place()),
     }
 
 
@@ -236,6 +276,7 @@ def mesh_case(draw, regular: bool = False):
         "kind": "mesh", "dims": list(dims), "widths": widths, "shear": [draw(st.floats(-0.4, 0.4)) for _ in range(3)],
         "amp": amp, "jit": [draw(_unit) for _ in range(3 * ninner)] if amp else [],
         "order": order, "drop": min(drop, ncell - 1), "rots": [draw(st.integers(0, 23)) for _ in range(ncell)],
+        "place": draw(_place()), "history": draw(_history()),
     }
     case.update(draw(_fixing(nn)))
     case["n"] = 200 if regular else draw(_iters)
@@ -342,6 +383,8 @@ def sketch_input(case):
     if case["tilt"]:
         R = rodrigues(case["tilt"]["axis"], case["tilt"]["angle"])
         p3, lattice = p3 @ R.T, lattice @ R.T
+    off = placement(case, float(min(space.values())))
+    p3, lattice = p3 + off, lattice + off
     return np.array(p3[order]), quads, lattice[order], calls
 
 
@@ -382,7 +425,8 @@ def mesh_input(case):
         nodes = [nid(i + dx, j + dy, k + dz) for dx, dy, dz in CANON]
         perm = ROT[case["rots"][c]]
         cells.append([nodes[perm[m]] for m in range(8)])
-    return pos, cells, lattice, calls
+    off = placement(case, float(min(min(w) for w in case["widths"])))
+    return pos + off, cells, lattice + off, calls
 
 
 # --------------------------------------------------------------------------------------------------
@@ -420,8 +464,9 @@ def run_sketch(case, points, quads, fixed, n, facts):
         raise Violation("smoothing-raises", f"{type(ex).__name__}: {ex}", **facts) from None
 
 
-def run_mesh(case, pos, cells, fixed, n, facts):
-    """fresh mesh, n sweeps -> (positions per node id, mesh, smoother, node -> vertex index)"""
+def run_mesh(case, pos, cells, fixed, n, facts, history=None):
+    """fresh mesh, n sweeps (spread over the calls of `history` on one smoother) ->
+    (positions per node id as found in mesh.vertices after the last call, mesh, smoother, node -> vertex index)"""
     try:
         mesh = cb.Mesh()
         for c in cells:
@@ -443,9 +488,15 @@ def run_mesh(case, pos, cells, fixed, n, facts):
     try:
         smoother = MeshSmoother(mesh)
         _fix(smoother, fixed, vpos, node_to_vertex)
-        if n > 0:
-            smoother.smooth(n)
+        parts = split_iterations(n, history)
+        for i, count in enumerate(parts):
+            if count > 0 or len(parts) > 1:
+                smoother.smooth(count)
+            if i < len(parts) - 1 and history["ops"][i] == "backport":
+                mesh.backport()  # pushes the vertices to the operations and re-assembles the mesh
         after = np.array([v.position for v in mesh.vertices], dtype=float)
+        if len(after) != len(vpos):
+            raise Violation("vertex-count-changed", f"{len(vpos)} vertices before, {len(after)} after the history", **facts)
     except Exception as ex:
         raise Violation("smoothing-raises", f"{type(ex).__name__}: {ex}", **facts) from None
     out = pos.copy()
@@ -527,6 +578,8 @@ def common(case, topo: Topo, calls, initial, after, before, size, extent, lattic
     check_sweep(before, after, topo, free, extent, facts)
     n = case["n"]
     need = needed_iterations(free, topo)
+    # far from the origin the rounding of a coordinate (not the cell size) limits what a fix point can reach
+    size = size + 1e-3 * extent
     if n >= need:
         check_fixpoint(initial, after, topo, free, size, facts)
         ctx.label("fixpoint-asserted")
@@ -550,6 +603,8 @@ def common(case, topo: Topo, calls, initial, after, before, size, extent, lattic
         ctx.label("later-call-omits-earlier-interior-point")
     moved = [p for p in free if not np.array_equal(initial[p], after[p])]
     ctx.label("some-point-moved" if moved else "nothing-moved")
+    ratio = (case.get("place") or {}).get("ratio", 0.0)
+    ctx.label(f"placed-at={ratio:g}-cell-sizes")
     ctx.info = {"need": need, "free": len(free)}
 
 
@@ -560,7 +615,7 @@ def make_disk(case):
     """the library's own unstructured sketches, as a user creates them"""
     from classy_blocks.construct.flat.sketches import disk
 
-    c = np.array(case["center"])
+    c = np.array(case["center"]) + placement(case, 0.5 * case["radius"])
     R = np.eye(3) if case["tilt"] is None else rodrigues(case["tilt"]["axis"], case["tilt"]["angle"])
     e1, e2, normal = R[:, 0], R[:, 1], R[:, 2]
     r = case["radius"]
@@ -577,6 +632,7 @@ def disk_case(draw):
     case = {
         "kind": draw(st.sampled_from(DISKS)), "radius": 10.0 ** draw(st.floats(-1.0, 1.0)),
         "center": [draw(st.floats(-10.0, 10.0)) for _ in range(3)], "tilt": draw(_tilt()), "n": draw(_iters),
+        "place": draw(_place()),
     }
     case.update(draw(_fixing(22)))
     return case
@@ -627,7 +683,10 @@ def check_mesh(case, ctx: Ctx) -> None:
     topo = Topo(cells, len(pos))
     n = case["n"]
     facts = {"map": "mesh", "n": n, "mode": case["mode"], "blocks": len(cells), "dims": case["dims"]}
-    result = run_mesh(case, pos, cells, fixed, n, facts)
+    history = case.get("history")
+    facts["calls_to_smooth"] = split_iterations(n, history)
+    facts["between"] = history["ops"] if history else []
+    result = run_mesh(case, pos, cells, fixed, n, facts, history)
     earlier = (pos,) if n == 1 else run_mesh(case, pos, cells, fixed, n - 1, facts)
     if result is None or earlier is None:
         ctx.label("mesh-vertices-not-one-per-node(not judged)")
@@ -649,6 +708,9 @@ def check_mesh(case, ctx: Ctx) -> None:
     extent = float(np.abs(pos).max()) + size
     common(case, topo, fixed, pos, after, before, size, extent, lattice, ctx, facts)
     ctx.label(f"dims={'x'.join(map(str, case['dims']))}", f"dropped={case['drop']}")
+    ctx.label(f"smooth-calls={len(facts['calls_to_smooth'])}")
+    if "backport" in facts["between"]:
+        ctx.label("mesh.backport-between-calls")
 
 
 # --------------------------------------------------------------------------------------------------
